@@ -10,7 +10,8 @@
 EXTENDS SpaceGroup, TLC, Json, IOUtils
 
 CONSTANT NBlocks
-Traces == JsonDeserialize(IOEnv.TRACE_FILE).traces
+ASSUME TLCSet(1, JsonDeserialize(IOEnv.TRACE_FILE).traces)     \* parsed once, not once per worker
+Traces == TLCGet(1)
 
 VARIABLES blk, tid
 vars == <<blk, tid>>
